@@ -66,8 +66,8 @@ JUNK = {9: "J . 18446744073709551616 : integer beyond 64 bits", 10: "X.987654321
         1: "this line has neither delimiter", 2: "!!!! ???? ----", 3: "\"quoted junk\" 'more' without a period",
         4: "x" * 300, 5: "   trailing and leading blanks   ", 6: "(((( ]]]] ((((", 7: "12345 67890", 8: "=+=+=+=+="}
 FREE = {1: "free text line one", 2: "second line, with: punctuation. and a period"}
-FIN_SPELL = [lambda x: repr(x), lambda x: "%.2f" % x, lambda x: "%.5f" % x, lambda x: "%.4E" % x, lambda x: ("+%r" % x) if x >= 0 else repr(x),
-             lambda x: "%.6e" % x]
+FIN_SPELL = [lambda x: repr(x), lambda x: "%.2f" % x, lambda x: "%.5f" % x, lambda x: "%.8E" % x, lambda x: ("+%r" % x) if x >= 0 else repr(x),
+             lambda x: "%.9e" % x]
 
 
 def cell_value(cid):
@@ -206,7 +206,7 @@ def project_cell(x):
         if x in _NULLV[1]:
             return -3
         y = abs(x) - 0.25          # (the "neg" style writes every value with a minus sign: a hyphen on every line)
-        if y == int(y) and 100 <= y < 1000:
+        if y == int(y) and 100 <= y < 100000:
             r, c = divmod(int(y), 100)
             if 1 <= c <= 9:
                 return r * 10 + c
